@@ -58,7 +58,8 @@ def oracle(src, toks):
                     yield "indent-stamped", f"Indent at {sl}:{sc}-{ec} covers {seg!r}"
             continue
         # known class D27: a token that really sits on the last line of a multi-line string, with drifted columns
-        after_ml = ml_line is not None and sl == ml_line and 1 <= sl <= len(lines) and lx in lines[sl - 1]
+        core = lx[:-1] if k == "Str" and lx.endswith(b'"') else lx      # an unterminated literal has no closing quote
+        after_ml = ml_line is not None and sl == ml_line and 1 <= sl <= len(lines) and core in lines[sl - 1]
         # span covers exactly the token's characters
         if not (1 <= sl <= len(lines)):
             yield "line-out-of-range", f"{k} at line {sl} of {len(lines)}"
